@@ -142,6 +142,7 @@ type frame struct {
 	escaping map[*ssa.Alloc]bool
 	names []string
 	rangeInfo map[*ssa.Range][2]string
+	siteOrd map[string][]ssa.Instruction
 }
 
 type bstate struct {
